@@ -212,6 +212,7 @@ Verdict(s) ==
     IN  [run |-> s.run, viol |-> v, anomalies |-> an, hangAdmitted |-> admitted,
          mismatch |-> (IF s.execd THEN ImageMismatch(s.c, s.image) ELSE {}) \cup s.attempt,
          unplanned |-> Unplanned(s), ios |-> s.ios,
+         leads |-> IF ErrMeansNoExec(o) THEN {} ELSE {"ErrMeansNoExec"},     \* evidence only
          returns |-> [k \in DOMAIN s.returns |-> [proc |-> s.returns[k].proc, res |-> s.returns[k].res, code |-> s.returns[k].code]],
          failed |-> s.failed, child |-> s.child, execd |-> s.execd, reaped |-> s.reaped,
          cstatus |-> s.cstatus, waits |-> s.waits, io |-> s.image.io]
